@@ -5,3 +5,4 @@ import Props.C18
 import Props.C10
 import Props.C13
 import Props.C06Gen
+import Props.C17
